@@ -43,6 +43,18 @@ def table_row(code, digits):
             row += enc(x)
         for x in cp:
             row += enc(x)
+        # plateau-free ("cleaned") series: the cleaned-array entry point and its deprecated alias
+        if all(digits[i] != digits[i + 1] for i in range(len(digits) - 1)):
+            from eqsig.fns import peaks_and_crossings as pc
+            cl = pc.determine_indices_of_peaks_for_cleaned_array(v)
+            row += [len(cl)] + [int(x) for x in cl]
+            if code % 2:
+                dp = pc.determine_indices_of_peaks_for_cleaned(v)
+                row += [len(dp)] + [int(x) for x in dp]
+            else:
+                row += [-1]
+        else:
+            row += [-1, -1]
     return row
 
 
@@ -98,6 +110,9 @@ def build_traces(path, tier, seed):
                 arg[-1] = arg[0] + 1
             x = np.asarray(arg, dtype=float)
         allp, mx, mn, co, cp = impl(arg)
+        if tid % 6 == 3 and not np.any(np.diff(np.asarray(arg, dtype=float)) == 0):
+            from eqsig.fns import peaks_and_crossings as pc_
+            allp = pc_.determine_indices_of_peaks_for_cleaned_array(arg)            # plateau-free: the cleaned-array entry point
         if tid % 6 == 1:
             import eqsig
             from eqsig.fns import peaks_and_crossings as pc_
